@@ -27,6 +27,9 @@ type CaseSpec struct {
 	Run  func(keep []int) (*Trace, error)
 	// Inputs renders the inputs without executing anything (used when execution kills the process).
 	Inputs func() []string
+	// Atomic: the outcome depends on scheduling; the trace of the failing run is kept as it is
+	// (no shrinking, which would re-run it).
+	Atomic bool
 }
 
 // Mode generates cases.
@@ -398,7 +401,7 @@ func runProp(prop, modeName, tier string, seed uint64, outPath, replayDir, known
 					shrunk[sig]++
 					doShrink := shrunk[sig] <= 2
 					mu.Unlock()
-					if keepOverride == nil && doShrink && !mode.Atomic {
+					if keepOverride == nil && doShrink && !mode.Atomic && !j.spec.Atomic {
 						pred := func(k []int) bool {
 							t2, err := j.spec.Run(k)
 							if err != nil {
